@@ -13,6 +13,7 @@ import DC.Model.Check
 import DC.Model.Memo
 import DC.Model.Layers
 import DC.Model.Recipes
+import DC.Model.RecipesQ
 import DC.Model.Spec
 import DC.Model.DSpec
 import DC.Model.OSpec
@@ -420,8 +421,22 @@ def parseCkState (kv : KV) : Option Check.St := do
   let files ← (splitList (kv.getD "files" "-") ";").foldr (fun t acc => do
       let l ← acc
       match (parseNats t ":") with
-      | some [a, b, c, d] => pure ({ id := a, d1 := b, d2 := c, size := d } :: l)
+      | some [a, b, c, d] => pure (({ id := a, d1 := b, d2 := c, size := d } : Check.FsFile) :: l)
       | _ => none) (some [])
+  -- optional (absent = none): files directly in the cache directory `top=id:size;...`, files directly
+  -- in a first-level directory `mid=id:d1:size;...`, and `skip=id,...` = the ids of the files (at any
+  -- level) whose full path contains the text `cache.db`
+  let top ← (splitList (kv.getD "top" "-") ";").foldr (fun t acc => do
+      let l ← acc
+      match (parseNats t ":") with
+      | some [a, z] => pure (({ id := a, d1 := 0, d2 := 0, size := z, level := .top } : Check.FsFile) :: l)
+      | _ => none) (some [])
+  let mid ← (splitList (kv.getD "mid" "-") ";").foldr (fun t acc => do
+      let l ← acc
+      match (parseNats t ":") with
+      | some [a, b, z] => pure (({ id := a, d1 := b, d2 := 0, size := z, level := .first } : Check.FsFile) :: l)
+      | _ => none) (some [])
+  let skip ← parseNats (kv.getD "skip" "-") ","
   let dirs1 ← parseNats (kv.getD "dirs1" "-") ","
   let dirs2 ← (splitList (kv.getD "dirs2" "-") ",").foldr (fun t acc => do
       let l ← acc
@@ -430,7 +445,9 @@ def parseCkState (kv : KV) : Option Check.St := do
       | _ => none) (some [])
   let count ← (kv.getD "count" "0").toInt?
   let size ← (kv.getD "size" "0").toInt?
-  pure { rows := rows, count := count, size := size, files := files, dirs1 := dirs1, dirs2 := dirs2 }
+  -- in the order `os.walk` meets them: cache directory, first-level directories, value tree
+  let all := (top ++ mid ++ files).map (fun (f : Check.FsFile) => { f with db := skip.contains f.id })
+  pure { rows := rows, count := count, size := size, files := all, dirs1 := dirs1, dirs2 := dirs2 }
 
 def renderWarn : Check.Warn → String
   | .wrongSize r a b => s!"W{r}:{a}:{b}"
@@ -441,19 +458,27 @@ def renderWarn : Check.Warn → String
   | .count a b => s!"C{a}:{b}"
   | .size a b => s!"Z{a}:{b}"
 
-def renderCkState (s : Check.St) : String :=
+def renderCkState (s : Check.St) (ext : Bool := false) : String :=
+  let lvl (l : Check.Level) := (isort (fun (a b : Check.FsFile) => a.id < b.id) (s.files.filter (·.level == l)))
   "rows=" ++ ";".intercalate (s.rows.map (fun r => s!"{r.rowid}:{r.size}:" ++ (match r.file with | some f => toString f | none => "n"))) ++
   s!" count={s.count} size={s.size} files=" ++
-  ";".intercalate ((isort (fun (a b : Check.FsFile) => a.id < b.id) s.files).map (fun f => s!"{f.id}:{f.d1}:{f.d2}:{f.size}")) ++
+  ";".intercalate ((lvl .leaf).map (fun f => s!"{f.id}:{f.d1}:{f.d2}:{f.size}")) ++
   " dirs1=" ++ ",".intercalate ((isort (fun (a b : Nat) => a < b) s.dirs1).map toString) ++
-  " dirs2=" ++ ",".intercalate ((isort (fun (a b : Nat × Nat) => a.1 < b.1 || (a.1 == b.1 && a.2 < b.2)) s.dirs2).map (fun d => s!"{d.1}:{d.2}"))
+  " dirs2=" ++ ",".intercalate ((isort (fun (a b : Nat × Nat) => a.1 < b.1 || (a.1 == b.1 && a.2 < b.2)) s.dirs2).map (fun d => s!"{d.1}:{d.2}")) ++
+  (if ext then
+    " top=" ++ ";".intercalate ((lvl .top).map (fun f => s!"{f.id}:{f.size}")) ++
+    " mid=" ++ ";".intercalate ((lvl .first).map (fun f => s!"{f.id}:{f.d1}:{f.size}")) ++
+    " skip=" ++ ",".intercalate ((isort (fun (a b : Nat) => a < b) ((s.files.filter (·.db)).map (·.id))).map toString)
+   else "")
 
 def answerCk (kv : KV) : String :=
   match parseCkState kv with
   | none => "bad-op ck"
   | some st =>
     let (st', ws) := Check.check (parseBool (kv.getD "fix" "0")) st
-    "ck " ++ ",".intercalate (ws.map renderWarn) ++ " | " ++ renderCkState st'
+    -- the new fields are answered only when the line carried one of them: old lines, old answers
+    let ext := (kv.get? "top").isSome || (kv.get? "mid").isSome || (kv.get? "skip").isSome
+    "ck " ++ ",".intercalate (ws.map renderWarn) ++ " | " ++ renderCkState st' ext
 
 
 /-! ### `args_to_key` protocol -/
@@ -560,6 +585,35 @@ def answerTb (kv : KV) : String :=
   match r with
   | some s => "tb " ++ s
   | none => "bad-op tb"
+
+open Recipes in
+/-- `tq p= q= seconds= den= start= times=`: the throttle with count = p/q (DC.Recipes.QBucket).
+`start` and `times` are integer multiples of 1/den second.  The model counts time in ticks of
+1/(p·den) second and has the period `seconds·den` (in units of 1/den s), so the instants are
+multiplied by p on the way in and a delay of d ticks is answered as the exact fraction
+d/(p·den) of a second, in lowest terms: `d<num>/<den>`.  A passing attempt is answered `p`.
+Every field is required and p, q, seconds, den must be positive (the real code divides by
+`seconds` and by `rate`). -/
+def answerTq (kv : KV) : String :=
+  let r : Option String := do
+    let p ← (← kv.get? "p").toNat?
+    let q ← (← kv.get? "q").toNat?
+    let seconds ← (← kv.get? "seconds").toNat?
+    let den ← (← kv.get? "den").toNat?
+    let start ← (← kv.get? "start").toInt?
+    let times ← (splitList (← kv.get? "times") ",").mapM (·.toInt?)
+    if p == 0 || q == 0 || seconds == 0 || den == 0 then none
+    let unit := p * den
+    let res := times.foldl (fun (acc : QBucket × List String) t =>
+      match acc.1.attempt (t * p) with
+      | (b, none) => (b, acc.2 ++ ["p"])
+      | (b, some d) =>
+        let g := Nat.gcd d.natAbs unit
+        (b, acc.2 ++ [s!"d{d / g}/{unit / g}"])) (QBucket.init p q (seconds * den) (start * p), [])
+    pure (",".intercalate res.2)
+  match r with
+  | some s => "tq " ++ s
+  | none => "bad-op tq"
 
 open Recipes in
 def answerAv (kv : KV) : String :=
@@ -1005,6 +1059,7 @@ def answer (st : DState) (line : String) : DState × String :=
   | ("lstate", _) :: rest => answerLayer st "lstate" rest
   | ("rk", _) :: rest => (st, answerRk rest)
   | ("tb", _) :: rest => (st, answerTb rest)
+  | ("tq", _) :: rest => (st, answerTq rest)
   | ("av", _) :: rest => (st, answerAv rest)
   | ("ck", _) :: rest => (st, answerCk rest)
   | ("mk", _) :: rest => (st, answerMk rest)
